@@ -689,14 +689,23 @@ func TestVF_C10_HashEqual(t *testing.T) {
 
 // ---------- Update.Prepend
 
+type wireEventList struct {
+	Index      uint64     `json:"i"`
+	ParentHash Hash       `json:"hash"`
+	E          []*big.Int `json:"e"`
+}
+
 // listVia passes an event list through its JSON or CBOR form (the compressed form re-derives
 // indices and hashes; the decoded list is pre-marked as verified by the library).
-func listVia(events []*Event, how string, mutate func(c *compressedEventList)) (*EventList, bool) {
-	c := NewEventList(events...).compress()
-	// deep copy of the compressed form
-	cc := &compressedEventList{Index: c.Index, ParentHash: Hash(append([]byte{}, c.ParentHash...))}
-	for _, e := range c.E {
-		cc.E = append(cc.E, new(big.Int).Set(e))
+func listVia(events []*Event, how string, mutate func(c *wireEventList)) (*EventList, bool) {
+	// the wire form of an event list (field names are the public format: i, hash, e), built by the
+	// harness from the events so that nothing unexported of the package is needed
+	cc := &wireEventList{}
+	if len(events) > 0 {
+		cc.Index, cc.ParentHash = events[0].Index, Hash(append([]byte{}, events[0].ParentHash...))
+	}
+	for _, e := range events {
+		cc.E = append(cc.E, new(big.Int).Set(e.E))
 	}
 	if mutate != nil {
 		mutate(cc)
@@ -730,21 +739,21 @@ func TestVF_C10_Prepend(t *testing.T) {
 	maxN := rec.N(4, 7)
 	type mut struct {
 		name string
-		f    func(c *compressedEventList)
+		f    func(c *wireEventList)
 	}
 	muts := []mut{
 		{"none", nil},
-		{"first.E+2", func(c *compressedEventList) { c.E[0].Add(c.E[0], bi(2)) }},
-		{"last.E+2", func(c *compressedEventList) { c.E[len(c.E)-1].Add(c.E[len(c.E)-1], bi(2)) }},
-		{"index+1", func(c *compressedEventList) { c.Index++ }},
-		{"index-1", func(c *compressedEventList) { c.Index-- }},
-		{"parenthash-flip", func(c *compressedEventList) {
+		{"first.E+2", func(c *wireEventList) { c.E[0].Add(c.E[0], bi(2)) }},
+		{"last.E+2", func(c *wireEventList) { c.E[len(c.E)-1].Add(c.E[len(c.E)-1], bi(2)) }},
+		{"index+1", func(c *wireEventList) { c.Index++ }},
+		{"index-1", func(c *wireEventList) { c.Index-- }},
+		{"parenthash-flip", func(c *wireEventList) {
 			if len(c.ParentHash) > 5 {
 				c.ParentHash[5] ^= 1
 			}
 		}},
-		{"last-dropped", func(c *compressedEventList) { c.E = c.E[:len(c.E)-1] }},
-		{"first-dropped", func(c *compressedEventList) {
+		{"last-dropped", func(c *wireEventList) { c.E = c.E[:len(c.E)-1] }},
+		{"first-dropped", func(c *wireEventList) {
 			c.E = c.E[1:]
 		}},
 	}
